@@ -14,7 +14,16 @@
 (*             hook) and their sizes on disk                               *)
 (*   present   which input's marker literal occurs in which emitted file   *)
 (*   exact     the length of the text printed for an input in an emitted   *)
-(*             file, where it can be delimited (unminified output)         *)
+(*             file, where it can be delimited (output that keeps its      *)
+(*             white space: sections between the path comments, the last   *)
+(*             one closed by the linker's own tail)                        *)
+(*   glue      per emitted file all of whose text is delimited: the bytes  *)
+(*             outside every input's sections                              *)
+(*   roots     entry points and injected files                             *)
+(*   exec / ran / redges / recorders   (bundles whose modules record what  *)
+(*             they do when the bundle is run in Node) the modules that    *)
+(*             were evaluated and, per (importer, specifier, kind), the id *)
+(*             of the module that was really received                      *)
 (* The invariants say that the metafile is an exact account of all that.   *)
 (***************************************************************************)
 EXTENDS Integers, Sequences, FiniteSets, TLC, Json
@@ -77,8 +86,14 @@ ExportsAreReal == Rec.esm => OExports = PExports
 DExports == IF Rec.esm THEN [notInCode |-> OExports \ PExports, notInMetafile |-> PExports \ OExports] ELSE [notInCode |-> {}, notInMetafile |-> {}]
 
 \* the inputs are exactly the files read into the bundle, with their exact sizes
-InputsAreExactlyRead == InPaths = Read
-DInputs == [notRead |-> InPaths \ Read, notListed |-> Read \ InPaths]
+\* (a file that was parsed but that no listed import names and that left no
+\* trace in any emitted file - e.g. the "module" file of a package after the
+\* dual-package rule redirected every import of it to the "main" file - was
+\* read but is not part of the bundle)
+Traces == {p.inp : p \in Present} \cup ToSet(Rec.ran) \cup {m.path : m \in {x \in IImports : ~x.external}}
+NotListed == (Read \ InPaths) \cap Traces
+InputsAreExactlyRead == InPaths \subseteq Read /\ NotListed = {}
+DInputs == [notRead |-> InPaths \ Read, notListed |-> NotListed]
 WrongSizes == {x.path : x \in {y \in Ins : ~\E s \in Sizes : s.path = y.path /\ s.size = y.bytes}}
 InputBytesExact == WrongSizes = {}
 
@@ -97,6 +112,13 @@ Inexact == {[out |-> x.out, inp |-> x.inp, expected |-> x.expected, metafile |->
               x \in {y \in Exact : ~\E c \in OInputs : c.out = y.out /\ c.inp = y.inp /\ c.bytes = y.expected}}
 ContributionExact == Inexact = {}
 
+\* the accounting rule of Meta.tla on the real file: what is attributed to the
+\* inputs plus what the linker printed itself is the size of the file
+Glue == ToSet(Rec.glue)
+GlueOff == {[out |-> g.out, glue |-> g.bytes, attributed |-> Attributed(g.out), bytes |-> {o.bytes : o \in {x \in Outs : x.path = g.out}}] :
+              g \in {h \in Glue : ~\E o \in Outs : o.path = h.out /\ Attributed(h.out) + h.bytes = o.bytes}}
+GlueExact == GlueOff = {}
+
 \* an input with a non-zero contribution really has its code in that file
 \* (its marker literal, or for a file-loader input the path of its emitted
 \* copy); an input whose marker is in a file contributes to it; hence a
@@ -112,8 +134,39 @@ NotInputs == {m \in IImports : ~m.external /\ m.path \notin InPaths}
 BundledExternal == {m \in IImports : m.external /\ m.bundled}
 \* (imports that the inject option adds to every file are not in the source text)
 ISpecs == {[inp |-> m.inp, spec |-> m.spec, kind |-> m.kind] : m \in {x \in IImports : ~x.injected}}
-InputImportsAreReal == NotInputs = {} /\ BundledExternal = {} /\ ISpecs = SImports
-DInputImports == [notInputs |-> NotInputs, bundledButExternal |-> BundledExternal, notInSource |-> ISpecs \ SImports, notInMetafile |-> SImports \ ISpecs]
+\* judged against what the bundle really loads: for every (importer,
+\* specifier, kind) the running bundle recorded, the metafile lists that import
+\* and its path is the module that was really received (an external or
+\* disabled module has no id)
+REdges == ToSet(Rec.redges)
+EdgeMatches(m, e) == IF m.external \/ m.disabled THEN e.got = "<none>" ELSE e.got = m.file
+SameRef(m, e) == m.inp = e.inp /\ m.spec = e.spec /\ m.kind = e.kind
+Unlisted == {e \in REdges : ~\E m \in IImports : SameRef(m, e)}
+Misdirected == {[inp |-> e.inp, spec |-> e.spec, kind |-> e.kind, loaded |-> e.got, metafile |-> {m.path : m \in {x \in IImports : SameRef(x, e)}}] :
+                  e \in {f \in REdges : \E m \in IImports : SameRef(m, f) /\ ~EdgeMatches(m, f)}}
+InputImportsAreReal == NotInputs = {} /\ BundledExternal = {} /\ ISpecs = SImports /\ Unlisted = {} /\ Misdirected = {}
+DInputImports == [notInputs |-> NotInputs, bundledButExternal |-> BundledExternal, notInSource |-> ISpecs \ SImports, notInMetafile |-> SImports \ ISpecs,
+                  unlisted |-> Unlisted, misdirected |-> Misdirected]
+
+\* the import graph of the metafile is closed: the inputs are exactly what is
+\* reachable from the entry points (and injected files) along the listed
+\* non-external imports
+RECURSIVE Reach(_)
+Reach(S) == LET N == S \cup {m.path : m \in {x \in IImports : x.inp \in S /\ ~x.external}} IN IF N = S THEN S ELSE Reach(N)
+Roots == ToSet(Rec.roots)
+Reached == Reach(Roots)
+ImportGraphClosed == Reached = InPaths
+DClosed == [unreachable |-> InPaths \ Reached, notInputs |-> Reached \ InPaths]
+
+\* the modules that are evaluated when the bundle runs are exactly the inputs
+\* with a non-zero contribution (among the files that record their evaluation)
+Ran == ToSet(Rec.ran)
+Recorders == ToSet(Rec.recorders)
+Contributing == {c.inp : c \in {d \in OInputs : d.bytes > 0}}
+RanWithoutBytes == (Ran \cap Recorders) \ Contributing
+BytesButNotRun == (Contributing \cap Recorders) \ Ran
+ExecutedAreContributing == Rec.exec => (RanWithoutBytes = {} /\ BytesButNotRun = {} /\ Ran \subseteq InPaths)
+DExecuted == [ranWithoutBytes |-> IF Rec.exec THEN RanWithoutBytes ELSE {}, bytesButNotRun |-> IF Rec.exec THEN BytesButNotRun ELSE {}, ranNotInput |-> IF Rec.exec THEN Ran \ InPaths ELSE {}]
 
 Failing ==
   (IF OutputsKeysAreEmittedFiles THEN {} ELSE {"OutputsKeysAreEmittedFiles"}) \cup
@@ -126,7 +179,10 @@ Failing ==
   (IF ContributionsBounded THEN {} ELSE {"ContributionsBounded"}) \cup
   (IF ContributionIsPresent THEN {} ELSE {"ContributionIsPresent"}) \cup
   (IF ContributionExact THEN {} ELSE {"ContributionExact"}) \cup
-  (IF InputImportsAreReal THEN {} ELSE {"InputImportsAreReal"})
+  (IF InputImportsAreReal THEN {} ELSE {"InputImportsAreReal"}) \cup
+  (IF GlueExact THEN {} ELSE {"GlueExact"}) \cup
+  (IF ImportGraphClosed THEN {} ELSE {"ImportGraphClosed"}) \cup
+  (IF ExecutedAreContributing THEN {} ELSE {"ExecutedAreContributing"})
 
 \* per invariant: the named sets of offending items (all empty when it holds)
 Detail ==
@@ -140,6 +196,9 @@ Detail ==
     ContributionsBounded |-> [overfull |-> Overfull, notInputs |-> {c \in OInputs : c.inp \notin InPaths}],
     ContributionIsPresent |-> [ghosts |-> Ghosts, unattributed |-> Unattributed],
     ContributionExact |-> [inexact |-> Inexact],
-    InputImportsAreReal |-> DInputImports ]
+    InputImportsAreReal |-> DInputImports,
+    GlueExact |-> [glueOff |-> GlueOff],
+    ImportGraphClosed |-> DClosed,
+    ExecutedAreContributing |-> DExecuted ]
 Report == PrintT(<<"CASE", ToJson([i |-> i, failing |-> Failing, detail |-> IF Failing = {} THEN [ok |-> [ok |-> {}]] ELSE Detail])>>)
 =============================================================================
